@@ -25,6 +25,25 @@ FORBIDDEN = re.compile(
 
 sys.set_int_max_str_digits(0)
 _repo_bound = False
+_scratch_generated = {}
+
+
+def _restore_scratch_generated():
+    for path, old in _scratch_generated.items():
+        try:
+            with LakeLock():
+                if old is None:
+                    os.remove(path)
+                else:
+                    with open(path, "w", encoding="utf-8") as f:
+                        f.write(old)
+        except OSError:
+            pass
+
+
+import atexit  # noqa: E402
+
+atexit.register(_restore_scratch_generated)
 
 
 def bind_repo():
@@ -165,6 +184,9 @@ class Ctx:
         path = os.path.join(LEAN, "PV", "Generated", name + ".lean")
         os.makedirs(os.path.dirname(path), exist_ok=True)
         old = open(path, encoding="utf-8").read() if os.path.exists(path) else None
+        if old != content and REPO != os.path.realpath("/repo") and path not in _scratch_generated:
+            # a scratch-tree run must not leave its tables/kernels behind: put the file back at exit
+            _scratch_generated[path] = old
         if old != content:
             with LakeLock():
                 tmp = path + ".tmp%d" % os.getpid()
